@@ -16,10 +16,18 @@ def n0():
 
 def gen_scalar(rng):
     r = rng.random()
+    if r < 0.05:
+        # a text that has a special role somewhere in the library (sentinel, marker, keyword)
+        lits = core.source_literals()
+        odd = [x for x in core.compared_literals() if len(x) > 2 and not x.isalnum()]
+        if odd and rng.random() < 0.5:
+            return rng.choice(odd)
+        if lits:
+            return rng.choice(lits)
     if r < 0.45:
         return rng.choice(STRS)
     if r < 0.7:
-        return rng.choice([0, 1, -1, 2, 7, 10**12, -35])
+        return rng.choice([0, 1, -1, 2, 7, 10**12, -35, 9007199254740993, 9007199254740992])
     if r < 0.8:
         return rng.choice([0.5, 1.0, -2.25, 1e20])
     if r < 0.9:
@@ -38,6 +46,8 @@ def gen_plain(rng, depth, kind=None, width=4):
         ks = rng.sample(KEYS, min(n, len(KEYS)))
         return {k: gen_plain(rng, depth - 1, None, width) for k in ks}
     n = rng.choice([0, 1, 2, 2, 3, width])
+    if rng.random() < 0.04:
+        n = rng.choice([11, 12, 23])  # two-digit indexes
     r = rng.random()
     if r < 0.4:  # list of records
         ks = rng.sample(KEYS, 3)
